@@ -40,6 +40,7 @@ func c03Gen(rt *rapid.T) sPlan {
 	if rapid.IntRange(0, 2).Draw(rt, "tamper") == 0 {
 		sb.Tamper = 1 + rapid.IntRange(0, p.N-1).Draw(rt, "tampered")
 	}
+	sb.EarlyRecon = rapid.IntRange(0, 3).Draw(rt, "earlyRecon") == 0
 	p.Batches = []sBatch{sb}
 	if rapid.IntRange(0, 2).Draw(rt, "revision") == 0 {
 		// a second batch in the same round that re-uses message identifiers of the first one, some of them with a revised
@@ -116,6 +117,9 @@ func c03Judge(obs *sigObs) *viol {
 					return violf("store-differs", "node %d stores message id %q, which the proposal does not contain", ni, id)
 				}
 				for _, e := range entries {
+					if b.Hostile != "" && e.Username == b.Hostile {
+						continue // what a faulty proposer node broadcasts under its own name is its own business
+					}
 					if !bytes.Equal(e.SrcPayload, want.Payload) {
 						return violf("stored-payload-differs", "node %d, message %q, entry by %s: stored payload %x differs from the proposed %x", ni, id, e.Username, clipB(e.SrcPayload), clipB(want.Payload))
 					}
@@ -132,7 +136,7 @@ func c03Judge(obs *sigObs) *viol {
 				}
 			}
 			if withSig == 0 {
-				return violf("harness", "node %d stored no reconstructed signature although all %d participants signed", ni, p.N)
+				return violf("all-signed-but-nothing-reconstructed", "node %d stored no reconstructed signature for batch %s although all %d participants signed the proposed bytes (forged copy broadcast by the proposer's node: %v)", ni, b.BatchID, p.N, b.Hostile != "")
 			}
 			// export as the CLI does
 			exp, err := utils.PrepareSignaturesToDump(map[string][]fsmtypes.ReconstructedSignature(batch))
@@ -141,6 +145,9 @@ func c03Judge(obs *sigObs) *viol {
 			}
 			for id, ent := range *exp {
 				want := ref[id]
+				if b.Hostile != "" && len(batch[id]) > 0 && batch[id][0].Username == b.Hostile {
+					continue // the exported record is the proposer's own, which its faulty node overwrote itself
+				}
 				if !bytes.Equal(ent.Payload, want.Payload) {
 					return violf("exported-payload-differs", "node %d export, message %q: payload %x, proposed %x", ni, id, clipB(ent.Payload), clipB(want.Payload))
 				}
@@ -216,6 +223,9 @@ func c03Run(t *testing.T, st *vstat.Stats, p sPlan) *viol {
 	}
 	if obs.Tampered > 0 {
 		st.Class("tampered-request-refused")
+	}
+	if len(obs.Batches) > 0 && obs.Batches[0].Hostile != "" {
+		st.Class("proposer-node-broadcast-a-forged-copy-of-its-batch")
 	}
 	if nb > 0 {
 		st.Class("has-baked-range")
